@@ -72,11 +72,21 @@ def build(release=False, hooks=True, need_api=False):
         if rc != 0:
             b.gen_ok = False
             b.gen_msg = out.strip()
-        if need_api and os.path.exists(os.path.join(ROOT, "tools", "gen_api.py")):
-            rc, out = sh([sys.executable, os.path.join(ROOT, "tools", "gen_api.py")], timeout=300)
+        # the API table (nightly rustdoc, ~15 s) is regenerated whenever /repo's sources changed since it was last derived
+        h = hashlib.sha256()
+        for f in sorted(glob.glob(os.path.join(REPO, "src", "*.rs"))) + [os.path.join(REPO, "Cargo.toml")]:
+            h.update(f.encode())
+            h.update(open(f, "rb").read())
+        api_stamp = os.path.join(CACHE, "api.stamp")
+        api_out = os.path.join(COQ, "gen", "ApiSig.v")
+        cur = h.hexdigest() + hashlib.sha256(open(api_out, "rb").read()).hexdigest() if os.path.exists(api_out) else ""
+        if not os.path.exists(api_out) or not os.path.exists(api_stamp) or open(api_stamp).read() != cur:
+            rc, out = sh([sys.executable, os.path.join(ROOT, "tools", "gen_api.py")], timeout=600)
             if rc != 0:
                 b.gen_ok = False
                 b.gen_msg += out.strip()[-2000:]
+            elif os.path.exists(api_out):
+                open(api_stamp, "w").write(h.hexdigest() + hashlib.sha256(open(api_out, "rb").read()).hexdigest())
         if not os.path.exists(os.path.join(COQ, "Makefile")):
             sh("coq_makefile -f _CoqProject -o Makefile", cwd=COQ)
         rc, out = sh("timeout 1500 make -j%d -k 2>&1 | tail -60" % NPROC, timeout=1600, cwd=COQ)
@@ -577,3 +587,91 @@ def pl_corr(res, pagesize):
     if not ok and not rej:
         res["checks_bad"].append((0, "pl", "done", "monitor pl failed: " + out[-300:]))
     return len(ev)
+
+
+# ----------------------------------------------------------------------------------------------
+# the write-path engine model (Coq, extracted), page for page against the library's committed files
+# ----------------------------------------------------------------------------------------------
+def engine_corr(res, pagesize):
+    """replays the run's successful write operations in the Gallina engine (model/Engine.v) and compares every
+    committed state with the snapshot file: header fields, free-list ids, every reachable page (id, overflow,
+    entries). Returns (commits compared, exact). Stops following (without alarm) where the model does not apply:
+    a reader open while a writer begins, or sub-buckets opened as a side effect of iteration in a write tx."""
+    cmds, act, hbc = res["cmds"], res["act"], res["hooks_by_cmd"]
+    snap_at = {i: f for (i, f, w) in res.get("snaps", [])}
+    lines = []
+    origin = []
+    txs = {}
+    pending_commit = False
+    for i, c in enumerate(cmds):
+        if i >= len(act):
+            break
+        w = c.split()
+        a = act[i]
+        if w[0] == "begin" and a == "ok":
+            if w[2] == "w":
+                if any(not t["w"] for t in txs.values()):
+                    break
+                txs[w[1]] = dict(w=True, handles={"0": []})
+                lines.append("tx"); origin.append(i)
+            else:
+                txs[w[1]] = dict(w=False, handles={"0": []})
+        elif w[0] in ("getb", "goc", "create") and w[1] in txs:
+            t = txs[w[1]]
+            if a == "ok" and w[2] in t["handles"]:
+                t["handles"][w[4]] = t["handles"][w[2]] + [w[3]]
+                if t["w"]:
+                    lines.append("T %s" % "/".join(t["handles"][w[4]])); origin.append(i)
+        elif w[0] == "put" and w[1] in txs and txs[w[1]]["w"] and a.startswith("opt:") and w[2] in txs[w[1]]["handles"]:
+            lines.append("P %s %s %s" % ("/".join(txs[w[1]]["handles"][w[2]]) or "/", w[3], w[4])); origin.append(i)
+        elif w[0] == "del" and w[1] in txs and txs[w[1]]["w"] and a.startswith("opt:kv") and w[2] in txs[w[1]]["handles"]:
+            lines.append("D %s %s" % ("/".join(txs[w[1]]["handles"][w[2]]) or "/", w[3])); origin.append(i)
+        elif w[0] == "delb" and w[1] in txs and txs[w[1]]["w"] and a == "ok" and w[2] in txs[w[1]]["handles"]:
+            lines.append("X %s %s" % ("/".join(txs[w[1]]["handles"][w[2]]) or "/", w[3])); origin.append(i)
+        elif w[0] in ("dump", "buckets") and w[1] in txs and txs[w[1]]["w"]:
+            break
+        elif w[0] == "commit" and w[1] in txs:
+            t = txs.pop(w[1])
+            if t["w"]:
+                if a != "ok":
+                    lines.append("rollback"); origin.append(i)
+                else:
+                    names = [h.split(":", 3)[3] for h in (hbc[i] if i < len(hbc) else []) if h.startswith("hook:spill_child:")]
+                    lines.append("ord " + " ".join(names)); origin.append(i)
+                    pending_commit = True
+        elif w[0] == "drop" and w[1] in txs:
+            t = txs.pop(w[1])
+            if t["w"]:
+                lines.append("rollback"); origin.append(i)
+        elif w[0] == "snap":
+            if pending_commit and i in snap_at:
+                lines.append("commit %s" % snap_at[i]); origin.append(i)
+                pending_commit = False
+        elif w[0] == "reopen":
+            if pending_commit:
+                break
+            txs = {}
+            lines.append("reopen"); origin.append(i)
+        if pending_commit and w[0] in ("begin",) and w[2] == "w":
+            break
+    if pending_commit:
+        # drop the trailing uncompared commit
+        while lines and not lines[-1].startswith("commit "):
+            lines.pop(); origin.pop()
+    if not any(l.startswith("commit ") for l in lines):
+        return 0, 0
+    f = os.path.join(res["dir"], "engine.txt")
+    open(f, "w").write("\n".join(lines) + "\n")
+    rc, out = sh([MONITOR, "engine", str(pagesize), f], timeout=600)
+    ls = [l for l in out.split("\n") if l.strip()]
+    m = re.search(r"done commits=(\d+) exact=(\d+)", ls[-1]) if ls else None
+    for l in ls:
+        if l.startswith("DIFF"):
+            mm = re.match(r"DIFF line=(\d+) (.*)", l)
+            k = int(mm.group(1)) - 1
+            i = origin[k] if k < len(origin) else 0
+            res["checks_bad"].append((i, res["cmds"][i] + "   [write-path engine model vs the committed file, page for page]", "identical pages", mm.group(2)[:300]))
+            break
+    if not m and not any(l.startswith("DIFF") for l in ls):
+        res["checks_bad"].append((0, "engine", "done", "monitor engine failed: " + out[-300:]))
+    return (int(m.group(1)), int(m.group(2))) if m else (0, 0)
